@@ -177,11 +177,18 @@ func init() {
 				mfv := vuMfv(in[0], in[1], in[2], in[3])
 				v := in[3]
 				out := vuOut(len(v), p-1)
+				mfvV := make([]float64, len(mfv))
+				for j := range mfv {
+					mfvV[j] = mfv[j].V
+				}
+				mmfv, mvol := PrefixAbsMax(mfvV), PrefixAbsMax(v)
 				for k := range out {
 					i := k + p - 1
 					s, ill, _ := vuWinSum(mfv, i, p)
-					r := Quot(s, Sum(Window(v, i, p)), 0)
+					den := Sum(Window(v, i, p))
+					r := Quot(s, den, 0)
 					r.Ill = r.Ill || ill
+					r.S = RatioResid(mmfv[i], mvol[i], s, den)
 					out[k] = r
 				}
 				return One(out)
@@ -373,9 +380,12 @@ func init() {
 				cl, v := in[0], in[1]
 				cv := Zip2(cl, v, func(a, b float64) float64 { return a * b })
 				out := vuOut(len(cl), p-1)
+				mcv, mv := PrefixAbsMax(cv), PrefixAbsMax(v)
 				for k := range out {
 					i := k + p - 1
-					out[k] = Quot(Sum(Window(cv, i, p)), Sum(Window(v, i, p)), 0)
+					num, den := Sum(Window(cv, i, p)), Sum(Window(v, i, p))
+					out[k] = Quot(num, den, 0)
+					out[k].S = RatioResid(mcv[i], mv[i], num, den) // running sums keep the residue of earlier, larger terms
 				}
 				return One(out)
 			},
